@@ -108,6 +108,106 @@ def add_duration_tabulate(ctx) -> bool | None:
     return not bad
 
 
+def shift_tabulate(ctx) -> bool | None:
+    """SHIFT.tabulated: DateTime.add / subtract and Date.add / subtract run by the checker's interpreter in the wall-clock world of
+    rules/wallstub.py (add_duration interpreted from helpers.py, the zone by one scenario transition): instances before, inside
+    and after a skipped / repeated hour, both folds, amounts of every unit and sign that land in, cross or leave the
+    transition.  Expected: amounts with a calendar unit (years, months, weeks, days) move the wall clock - month shift, day
+    clamp, then the rest - and the wall time reached is read by the construction rules (skipped: forward, repeated: the
+    later occurrence); amounts of clock units only move the instant exactly (the wall time and the occurrence follow)."""
+    import calendar
+    import datetime as _dt
+    from . import minieval, wallstub
+    if "SHIFT.tabulated" in ctx.analysed:
+        return ctx.analysed["SHIFT.tabulated"]
+    dm, dam = pmod("datetime"), pmod("date")
+    H = _dt.timedelta(hours=1)
+    scen = [(None, [_dt.datetime(2021, 1, 31, 12, 0), _dt.datetime(2024, 2, 29, 23, 59, 59, 999999)]),
+            (("skip", _dt.datetime(2021, 3, 28, 2), H), [_dt.datetime(2021, 3, 27, 2, 30), _dt.datetime(2021, 3, 28, 1, 30), _dt.datetime(2021, 2, 28, 2, 30),
+                                                          _dt.datetime(2021, 3, 28, 3, 30), _dt.datetime(2021, 3, 29, 2, 15), _dt.datetime(2020, 3, 28, 2, 0)]),
+            (("skip", _dt.datetime(2021, 10, 3, 2), H // 2), [_dt.datetime(2021, 10, 2, 2, 15), _dt.datetime(2021, 10, 3, 1, 45), _dt.datetime(2021, 10, 3, 2, 45)]),
+            (("repeat", _dt.datetime(2021, 10, 31, 3), H), [_dt.datetime(2021, 10, 30, 2, 30), _dt.datetime(2021, 10, 31, 1, 30), _dt.datetime(2021, 10, 31, 2, 30),
+                                                           _dt.datetime(2021, 10, 31, 3, 30), _dt.datetime(2021, 11, 1, 2, 30), _dt.datetime(2021, 9, 30, 2, 0)])]
+    amounts = [{"days": 1}, {"days": -1}, {"weeks": 1}, {"months": 1}, {"months": -1}, {"years": 1}, {"years": -1}, {"days": 1, "hours": 1}, {"months": 1, "minutes": -45},
+               {"hours": 1}, {"hours": -1}, {"hours": 2}, {"hours": -2}, {"hours": 24}, {"hours": -24}, {"minutes": 30}, {"minutes": -30}, {"minutes": 90}, {"seconds": 3600},
+               {"seconds": -5400}, {"microseconds": 1}, {"microseconds": -1}, {"seconds": 0.5}, {"hours": 1, "minutes": 30, "seconds": 15, "microseconds": 7}, {}]
+
+    def cal(w, kw):
+        mi = w.year * 12 + w.month - 1 + kw.get("years", 0) * 12 + kw.get("months", 0)
+        y, mo = divmod(mi, 12)
+        mo += 1
+        return w.replace(year=y, month=mo, day=min(w.day, calendar.monthrange(y, mo)[1])) + _dt.timedelta(
+            weeks=kw.get("weeks", 0), days=kw.get("days", 0), hours=kw.get("hours", 0), minutes=kw.get("minutes", 0), seconds=kw.get("seconds", 0),
+            microseconds=kw.get("microseconds", 0))
+    ok_all = True
+    for cls, m in (("DateTime", dm), ("Date", dam)):
+        for meth in ("add", "subtract"):
+            if meth not in m.methods(cls):
+                continue
+            bad, n = [], 0
+            try:
+                for (tr, walls), base in [(sc, None) for sc in scen] + [(sc, _dt.timedelta(0)) for sc in scen[:2] + scen[3:]]:
+                    for w0 in walls:
+                        if base is not None and cls == "Date":
+                            continue
+                        # base None: the zone is at +02:00 before the transition; timedelta(0): at +00:00 (a zone like Europe/London)
+                        wld = wallstub.World(m, cls, transition=tr, extra=dam.methods("Date") if cls == "DateTime" else None, interpret_add=True, base_offset=base)
+                        if cls == "Date":
+                            insts = [wld.date(w0.date())]
+                        elif wld.skipped(w0):
+                            continue
+                        else:
+                            insts = [wld.datetime(w0, f) for f in (0, 1)]
+                        for x in insts:
+                            for kw in amounts:
+                                if cls == "Date" and (set(kw) - {"years", "months", "weeks", "days"} or (tr is not None and w0 is not walls[0])):
+                                    continue
+                                eff = kw if meth == "add" else {k: -v for k, v in kw.items()}
+                                n += 1
+                                label = f"{w0.isoformat(' ') if cls == 'DateTime' else w0.date()}" + (f" fold={vars(x)['fold']}" if cls == "DateTime" and wld.ambiguous(w0) else "") \
+                                    + f" .{meth}({', '.join(f'{k}={v}' for k, v in kw.items())})" + (f" [{tr[0]} {tr[1].isoformat(' ')} +{tr[2]}]" if tr else "") \
+                                    + (" [offset 00:00 before the transition]" if base is not None else "")
+                                try:
+                                    got = wld.call(x, meth, [], dict(kw))
+                                except minieval.Raised as e:
+                                    bad.append(f"{label}: raises {e.exc_name}")
+                                    continue
+                                g = vars(got) if isinstance(got, minieval.Obj) else {}
+                                if cls == "Date":
+                                    want_d = cal(_dt.datetime.combine(w0.date(), _dt.time()), eff).date()
+                                    if g.get("_date") != want_d:
+                                        bad.append(f"{label}: {g.get('_date')} (expected {want_d})")
+                                    continue
+                                if any(eff.get(k) for k in ("years", "months", "weeks", "days")):
+                                    w1 = cal(w0, eff)
+                                    want_w = wld.resolve(w1, 1)
+                                    want_f = 1 if wld.ambiguous(want_w) else None
+                                else:
+                                    want_w, f2 = wld.from_instant(wld.instant(x) + _dt.timedelta(**eff))
+                                    want_f = f2 if wld.ambiguous(want_w) else None
+                                if g.get("tz") is not wld.tz:
+                                    bad.append(f"{label}: the result is in the zone {getattr(g.get('tz'), 'name', g.get('tz'))!r}, not in the instance's")
+                                elif g.get("_wall") != want_w:
+                                    bad.append(f"{label}: {g.get('_wall')} (expected {want_w.isoformat(' ')})")
+                                elif want_f is not None and g.get("fold") != want_f:
+                                    bad.append(f"{label}: the {'second' if g.get('fold') else 'first'} occurrence of the repeated {want_w.time()} (expected the "
+                                               f"{'second' if want_f else 'first'})")
+            except wallstub.ERRORS + (ValueError,) as e:
+                ctx.unverified("SHIFT.tabulated", f"{cls}.{meth}", f"outside the checker's interpreter: {type(e).__name__}: {e}", m.loc(m.func(f"{cls}.{meth}")))
+                ok_all = None if ok_all is not False else False
+                continue
+            ctx.ob("SHIFT.tabulated", f"{cls}.{meth}", not bad, f"{n} (instance, amount, zone transition) cases: " + (f"wrong: {bad[:3]}" if bad else
+                   "calendar amounts move the wall clock (re-read by the construction rules), clock amounts move the instant"), m.loc(m.func(f"{cls}.{meth}")))
+            if bad:
+                ok_all = False
+    ctx.analysed["SHIFT.tabulated"] = ok_all
+    if ok_all:
+        # how DateTime.add / Date.add are written (the two exits, what is forwarded to add_duration, the negation in subtract) is then not a property
+        ctx.established(("ADD.", "NEGSYM", "ADD.forward"), "DateTime.", "SHIFT.tabulated")
+        ctx.established(("ADD.", "NEGSYM", "ADD.forward"), "Date.", "SHIFT.tabulated")
+    return ok_all
+
+
 def carry_blocks(ctx, rule: str = "UNITS.carry") -> None:
     add_duration_tabulate(ctx)
     m = pmod("helpers")
@@ -269,6 +369,7 @@ def _month_shift(ctx, rule: str, m: core.Mod, st: ast.If) -> None:
 
 
 def datetime_add_shape(ctx, rule: str = "ADD") -> None:
+    shift_tabulate(ctx)
     """DateTime.add: classification list, forwarding into add_duration, both exits."""
     m = pmod("datetime")
     fn = m.func("DateTime.add")
